@@ -57,6 +57,63 @@ def _names_loaded(text):
     return out
 
 
+def _global_reads(text):
+    """names read as module globals (or builtins) somewhere, by CPython's own scope analysis (`symtable`), plus the
+    names listed in a literal __all__ and the identifiers of doctest lines"""
+    import symtable
+    src = text if text.endswith("\n") else text + "\n"
+    out = set()
+
+    def walk(t, top):
+        kind = t.get_type()
+        for sym in t.get_symbols():
+            if not sym.is_referenced():
+                continue
+            if top:
+                out.add(sym.get_name())
+            elif str(kind).endswith("class") or kind == "class":
+                if not sym.is_free():
+                    out.add(sym.get_name())      # class bodies fall back to the global when the name is not yet bound
+            elif sym.is_global():
+                out.add(sym.get_name())
+        for ch in t.get_children():
+            walk(ch, False)
+    walk(symtable.symtable(src, "<m>", "exec"), True)
+    tree = ast.parse(src)
+    for n in ast.walk(tree):
+        if isinstance(n, (ast.ListComp, ast.SetComp, ast.DictComp, ast.GeneratorExp)):
+            # CPython 3.12 inlines comprehensions and its symtable then loses their reads: take every load in a
+            # comprehension that is not one of its own targets (over-inclusive, i.e. conservative)
+            tg = {x.id for g in n.generators for x in ast.walk(g.target) if isinstance(x, ast.Name)}
+            out.update(x.id for x in ast.walk(n) if isinstance(x, ast.Name) and isinstance(x.ctx, ast.Load) and x.id not in tg)
+        if isinstance(n, ast.Name) and isinstance(n.ctx, ast.Del):
+            out.add(n.id)
+        # annotations count as reads even when `from __future__ import annotations` leaves them unevaluated
+        anns = []
+        if isinstance(n, ast.arg) and n.annotation is not None:
+            anns.append(n.annotation)
+        if isinstance(n, (ast.FunctionDef, ast.AsyncFunctionDef)) and n.returns is not None:
+            anns.append(n.returns)
+        if isinstance(n, ast.AnnAssign):
+            anns.append(n.annotation)
+        for a in anns:
+            out.update(x.id for x in ast.walk(a) if isinstance(x, ast.Name))
+        if isinstance(n, ast.Assign) and any(isinstance(t, ast.Name) and t.id == "__all__" for t in n.targets):
+            try:
+                out.update(ast.literal_eval(n.value))
+            except Exception:
+                pass
+        if isinstance(n, ast.Constant) and isinstance(n.value, str) and ">>>" in n.value:
+            for line in n.value.splitlines():
+                if line.strip().startswith((">>>", "...")):
+                    out.update(re.findall(r"[A-Za-z_][A-Za-z_0-9]*", line))
+        if isinstance(n, ast.Constant) and isinstance(n.value, str) and not (">>>" in n.value):
+            # string annotations / forward references
+            if re.fullmatch(r"[A-Za-z_][A-Za-z_0-9.\[\], ]*", n.value):
+                out.update(re.findall(r"[A-Za-z_][A-Za-z_0-9]*", n.value))
+    return out
+
+
 class C04(Prop):
     id = "C04"
     driver = "Blocks"
@@ -98,6 +155,38 @@ class C04(Prop):
 
     def teardown(self):
         shutil.rmtree(getattr(self, "root", ""), ignore_errors=True)
+
+    def exhaustive_cases(self, tier, rng):
+        # names the module binds itself in ways an analysis can forget: no import may be added for them, and an
+        # unused import of the same name must still go
+        progs = [
+            "def fn(f=1, /):\n    return f\nprint(fn())\n",
+            "def fn(a=0, /, f=1, *, g=2):\n    return (a, f, g)\nprint(fn())\n",
+            "def fn(*f, **g):\n    return (f, g)\nprint(fn())\n",
+            "fn = lambda f=1, /, *g: (f, g)\nprint(fn())\n",
+            "def fn(v=[1, 2]):\n    match v:\n        case [a, *f]:\n            return f\nprint(fn())\n",
+            "def fn(v={1: 2}):\n    match v:\n        case {1: a, **f}:\n            return f\nprint(fn())\n",
+            "def fn(v=3):\n    match v:\n        case int() as f:\n            return f\nprint(fn())\n",
+            "def fn[f](a: f = 1) -> f:\n    return a\nprint(fn())\n",
+            "class Box[f]:\n    x: f\nprint(Box)\n",
+            "type f[g] = list[g]\nprint(f)\n",
+            "print([f for f in (1, 2)], {g: 1 for g in (1,)})\n",
+            "if (f := 3) > 2:\n    print(f)\n",
+            "try:\n    pass\nexcept* ValueError as f:\n    print(f)\n",
+            "with open(__file__) if False else __import__('contextlib').nullcontext(1) as f:\n    print(f)\n",
+            "for f, *g in [(1, 2)]:\n    print(f, g)\n",
+            "import contextlib as f, os as g\nprint(f, g)\n",
+            "def outer():\n    f = 1\n    def inner():\n        nonlocal f\n        f += 1\n        return f\n    return inner()\nprint(outer())\n",
+            "def fn():\n    global f\n    f = 1\nfn()\nprint(f)\n",
+        ]
+        out = []
+        for text in progs:
+            for pre in ("", "from pb import f\n"):
+                known = ["from pa import f", "from pa import g"]
+                out.append(dict(text=pre + text, tool="tidy", params={}, known=known, mandatory=[],
+                                flags=dict(add_missing=True, remove_unused=True, add_mandatory=True),
+                                unique={"f": "from pa import f", "g": "from pa import g"}, ambiguous=[]))
+        return out
 
     def gen_case(self, rng, i, tier):
         uniq = rng.sample(UNIQUE_POOL, rng.randint(1, 5))
@@ -177,6 +266,10 @@ class C04(Prop):
         #    (with a star import in the module any name may come from it: pyflyby reports no missing names then, by design)
         if not has_star:
             for n in obs.get("name_errors", []):
+                if n in case["unique"] and _module_deletes(text, n):
+                    # the module unbinds the name itself (`del n`): a NameError on a later read is the program's
+                    # own doing, no added import can prevent it
+                    continue
                 if n in case["unique"] and _bound_later_read_only_in_functions(text, n):
                     # the module binds the name itself (later); the premature read sits in a def/lambda body that
                     # the program happens to call early — not "a name the module reads without binding it"
@@ -191,9 +284,19 @@ class C04(Prop):
         allowed = set()
         for stmt in list(case["unique"].values()) + list(case["mandatory"]):
             allowed.update(canon(R.top_imports(stmt + "\n")))
+        try:
+            greads = _global_reads(out)
+        except SyntaxError:
+            greads = None
+        mand_allowed = set()
+        for stmt in list(case["mandatory"]):
+            mand_allowed.update(canon(R.top_imports(stmt + "\n")))
         for a in added:
             if a not in allowed:
                 fails.append(dict(what="an import was added that is neither the unique candidate of a missing name nor mandatory",
+                                  added=list(a), **ctx))
+            elif greads is not None and a not in mand_allowed and a[1].split(".")[0] not in greads:
+                fails.append(dict(what="an import was added for a name that the module never reads as a global",
                                   added=list(a), **ctx))
         # 3. no top-level import whose binding is never read remains (future / star / mandatory / __init__.py exempt)
         fn = case.get("filename")
@@ -255,6 +358,21 @@ class C04(Prop):
         acc[k] = acc.get(k, 0) + 1
 
     families = {}
+
+
+def _module_deletes(text, name):
+    import ast
+    try:
+        tree = ast.parse(text if text.endswith("\n") else text + "\n")
+    except SyntaxError:
+        return False
+    for n in ast.walk(tree):
+        if isinstance(n, ast.Delete):
+            for t in n.targets:
+                for x in ast.walk(t):
+                    if isinstance(x, ast.Name) and x.id == name and isinstance(x.ctx, ast.Del):
+                        return True
+    return False
 
 
 def _bound_later_read_only_in_functions(text, name):
